@@ -1,2 +1,2 @@
-"""witnesses of the Density2d contract are inputs of the C05.density oracle"""
-REPLAYERS_ALIAS = {'FlowCal.gate.density2d': 'C05.density'}
+"""witnesses of the Density2d / TextSegmentTokens contracts are inputs of the C05.density / C14.text oracles"""
+REPLAYERS_ALIAS = {'FlowCal.gate.density2d': 'C05.density', 'FlowCal.io.read_fcs_text_segment': 'C14.text'}
